@@ -44,7 +44,13 @@ func genTree(r *prng.R) tree {
 		t["g"] = "g1"
 	}
 	if r.Chance(40) {
-		t["um"] = "m1"
+		t["um"] = fmt.Sprintf("m%d", r.Range(1, 2))
+	}
+	if r.Chance(15) {
+		t["f/d.yaml"] = "v1" // a flow nobody probes
+	}
+	if r.Chance(10) {
+		t["q/qb.yaml"] = "q2"
 	}
 	return t
 }
@@ -104,7 +110,7 @@ func genPayload(r *prng.R, t tree, shape int) []item {
 	}
 	switch shape {
 	case shInvalidFlow:
-		set("f/"+prng.Pick(r, flows)+".yaml", "bad")
+		set("f/"+prng.Pick(r, flows)+".yaml", prng.Pick(r, []string{"bad", "bad", "empty", "xjunk"}))
 	case shBadB64:
 		if len(items) == 0 {
 			set("f/a.yaml", "@")
@@ -112,11 +118,11 @@ func genPayload(r *prng.R, t tree, shape int) []item {
 			items[r.Intn(len(items))].tok = "@"
 		}
 	case shInvalidQuota:
-		set("q/"+prng.Pick(r, qs)+".yaml", "bad")
+		set("q/"+prng.Pick(r, qs)+".yaml", prng.Pick(r, []string{"bad", "bad", "xjunk"}))
 	case shInvalidGateway:
-		set("g", "bad")
+		set("g", prng.Pick(r, []string{"bad", "xjunk"}))
 	case shBadMetrics:
-		set("um", prng.Pick(r, []string{"bad", "empty"}))
+		set("um", prng.Pick(r, []string{"bad", "bad", "xjunk"}))
 	case shNoop:
 		items = nil
 		for l, tok := range t {
@@ -176,9 +182,9 @@ func faultPositions(ep string, items []item) []string {
 }
 
 func gen(r *prng.R, f proto.Flags, emit func(proto.Case)) {
-	payloads := 26
+	payloads := 90
 	if f.Tier == "thorough" {
-		payloads = 420
+		payloads = 1100
 	}
 	payloads *= f.Budget
 	id := 0
